@@ -59,6 +59,7 @@ VARIABLES mode, cfg,    \* fixed in Init
 vars == <<mode, cfg, chunks, cst, cres, pipe, wk, sink, src, http, wgdone, hist, mon>>
 View == <<mode, cfg, chunks, cst, cres, pipe, wk, sink, src, http, wgdone>>
 
+In0 == <<>>          \* empty input: Cuts gives "no Write at all" and "one empty Write"
 In1 == <<1>>
 In2 == <<1, 2>>
 In3 == <<1, 2, 3>>
@@ -67,6 +68,7 @@ ModesAll == {"writer", "response", "reader", "plain", "bytes"}
 ModesC12 == {"writer", "response", "reader", "bytes"}
 ModesC14 == {"plain", "writer", "reader"}
 ModesW == {"writer"}
+ModesWH == {"writer", "response"}
 ModesH == {"response"}
 ModesP == {"plain"}
 ModesPR == {"plain", "reader"}
@@ -132,6 +134,7 @@ Observe(m, e) == [m EXCEPT !.bad = @ \cup EventBad(m.st, e, Hdr), !.st = Apply(m
 RECURSIVE ObserveAll(_, _)
 ObserveAll(m, es) == IF es = <<>> THEN m ELSE ObserveAll(Observe(m, Head(es)), Tail(es))
 \* every action: label for hist, events for the monitor
+Born == IF Mut = "addinside" THEN "spawned" ELSE "start"
 Rec(a, es) == /\ hist' = IF RecordHist THEN Append(hist, a) ELSE hist
               /\ mon' = IF Monitor /\ mode # "plain" THEN ObserveAll(mon, es) ELSE mon
 \* events of a Write on the underlying ResponseWriter / sink double: implicit header commit, then the write
@@ -147,8 +150,10 @@ Init == /\ mode \in Modes
                    [] mode \in {"plain", "bytes"} -> "pcall" [] mode = "response" -> "hstart"
         /\ cres = [writes |-> <<>>, close |-> "none", got |-> <<>>, read |-> "none", ret |-> "none", errfunc |-> "none"]
         /\ pipe = [act |-> FALSE, buf |-> <<>>, once |-> FALSE, rclosed |-> FALSE, wclosed |-> "no"]
-        /\ wk = [st |-> IF mode = "response" THEN "none" ELSE "start", inbuf |-> <<>>, left |-> <<>>,
-                 err |-> "nil", zerr |-> "nil", by |-> "K1"]
+        \* wg.Add(1) happens before the go statement: the worker is born with its WaitGroup count (added); in the wrong
+        \* design "addinside" the goroutine does the Add itself (state "spawned" until then)
+        /\ wk = [st |-> IF mode = "response" THEN "none" ELSE Born, inbuf |-> <<>>, left |-> <<>>,
+                 err |-> "nil", zerr |-> "nil", by |-> "K1", added |-> Mut # "addinside"]
         /\ sink = [calls |-> 0, delivered |-> <<>>, hit |-> FALSE, open |-> FALSE]
         /\ src = [given |-> 0, hit |-> FALSE]
         /\ http = [cl |-> cfg.cl, committed |-> "no", sel |-> "none", whdone |-> FALSE]
@@ -185,7 +190,8 @@ PCloseCall == /\ mode = "writer" /\ cst = "idle" /\ chunks = <<>>
               /\ cst' = "waitwg" /\ pipe' = [pipe EXCEPT !.wclosed = "EOF"]
               /\ Rec("CloseCall", <<E0("CloseCall")>>)
               /\ UNCHANGED <<mode, cfg, chunks, cres, wk, sink, src, http, wgdone>>
-PCloseRet == /\ cst = "waitwg" /\ (wgdone \/ Mut = "nowait")
+\* wg.Wait returns when the counter is zero: after wg.Done - or when nobody has called wg.Add yet
+PCloseRet == /\ cst = "waitwg" /\ (wgdone \/ ~wk.added \/ Mut = "nowait")
              /\ cst' = "done"
              /\ cres' = [cres EXCEPT !.close = wk.zerr,
                                      !.errfunc = IF cfg.mw = "mwerr" /\ wk.zerr # "nil" THEN wk.zerr ELSE @]
@@ -222,7 +228,7 @@ HSelect == /\ mode = "response" /\ cst = "idle" /\ chunks # <<>> /\ http.sel = "
            /\ LET mt == SelOf(cfg) IN
               IF Known(mt)
               THEN /\ http' = [http EXCEPT !.sel = mt, !.cl = IF PatchCL THEN "none" ELSE @]
-                   /\ wk' = [wk EXCEPT !.st = "start", !.by = mt]
+                   /\ wk' = [wk EXCEPT !.st = Born, !.by = mt]
               ELSE /\ http' = [http EXCEPT !.sel = "pass"] /\ UNCHANGED wk
            /\ Rec("Select", <<Ev(IF Known(SelOf(cfg)) THEN "hook.response.select" ELSE "hook.response.passthrough", 0, 0, "nil", SelOf(cfg), <<>>)>>)
            /\ UNCHANGED <<mode, cfg, chunks, cst, cres, pipe, sink, src, wgdone>>
@@ -252,6 +258,10 @@ HClose == /\ mode = "response" /\ cst = "idle" /\ chunks = <<>> /\ (cfg.wh = "la
 
 -----------------------------------------------------------------------------
 (* the worker: every package's Minify *)
+WAdd == /\ wk.st = "spawned"                       \* only in the wrong design: wg.Add(1) inside the goroutine
+        /\ wk' = [wk EXCEPT !.st = "start", !.added = TRUE]
+        /\ Rec("WAdd", <<>>)
+        /\ UNCHANGED <<mode, cfg, chunks, cst, cres, pipe, sink, src, http, wgdone>>
 WStart == /\ wk.st = "start"
           /\ wk' = IF cfg.notexist THEN [wk EXCEPT !.st = "exiting", !.err = "ErrNotExist"]
                    ELSE [wk EXCEPT !.st = "reading"]
@@ -368,7 +378,7 @@ GateOpen == /\ cfg.gate = "close" /\ ~sink.open /\ cst \in {"waitwg", "done", "l
 
 Client == PWriteCall \/ PWriteRet \/ PCloseCall \/ PCloseRet \/ PLateWrite \/ PClose2 \/ HStart \/ HSelect \/ HPassWrite
           \/ HWriteHeaderLast \/ HClose \/ CRead \/ PRet
-Worker == WStart \/ WReadPipe \/ WReadSrc \/ WSrcErr \/ WWriteSink \/ WProbeSink \/ WPipeBegin \/ WPipeEnd
+Worker == WAdd \/ WStart \/ WReadPipe \/ WReadSrc \/ WSrcErr \/ WWriteSink \/ WProbeSink \/ WPipeBegin \/ WPipeEnd
           \/ WExit1 \/ WExit2
 Finished == cst = (IF mode = "writer" /\ cfg.after THEN "done2" ELSE "done")
 Terminated == Finished /\ wk.st \in {"none", "exited"} /\ (cfg.gate = "close" => sink.open)
